@@ -21,6 +21,8 @@ def c12_concurrent(rep, tier):
     _tlc(rep, "Handover", "MC_Handover.cfg", "MC_Handover.cfg (level B, repaired code)", {"K": 3, "Variant": "fixed"})
     _tlc(rep, "Handover", "MC_Handover_orig.cfg", "MC_Handover_orig.cfg (vacuity guard: code before fix 9b16ca8)", {"K": 3, "Variant": "orig"},
          expect="C12_NoLoss")
+    _tlc(rep, "Handover", "MC_Handover_swapfirst.cfg", "MC_Handover_swapfirst.cfg (vacuity guard: new list published before the re-delivery, F15)",
+         {"K": 3, "Variant": "swapfirst"}, expect="C12_InOrder")
     rng = random.Random(SEED + 12)
     scs = []
     for th, pre, post, dests in [({"L": [3, 4]}, [1, 2], [5], [1, 2]), ({"L": [1, 2, 3]}, [], [4], [1]),
@@ -48,6 +50,37 @@ def c12_concurrent(rep, tier):
                           {"engine": "conc", "module": "checks_conc_extra", "scenario": sc, "schedule": h["schedule"], "history": h["ev"]})
     if hs:
         rep.sample({"handover_scenario": hs[0][0]["threads"], "history": hs[0][1]["ev"][:14]})
+    # the same race with global fields set just before the first add(), and with a FULL buffer (the most recent 1000 are kept)
+    full = list(range(100, 1100))
+    scs = [{"kind": "handover_cap", "threads": {"L": [1, 2]}, "pre": [11, 12, 13], "dests": [1, 2], "gf": True, "max_pre": 2,
+            "cap": 150 if quick else 6000, "random": 30 if quick else 1500, "seed": rng.randint(0, 10 ** 9), "budget_s": 60 if quick else 300},
+           {"kind": "handover_cap", "threads": {"L": [1]}, "pre": full, "dests": [1], "gf": True, "max_pre": 2, "early": True,
+            "cap": 30 if quick else 600, "random": 6 if quick else 300, "seed": rng.randint(0, 10 ** 9), "budget_s": 40 if quick else 400},
+           {"kind": "handover_cap", "threads": {"L": [1]}, "pre": full[:999], "dests": [1], "gf": False, "max_pre": 1, "early": True,
+            "cap": 12 if quick else 300, "random": 4 if quick else 100, "seed": rng.randint(0, 10 ** 9), "budget_s": 30 if quick else 300}]
+    results = run_scenarios(scs)
+    hs = [(res["scenario"], h) for res in results for h in res["runs"]]
+    acc, st = tlc_accepts("HandoverCapA", "HandoverCapA.cfg", [{k: v for k, v in h.items() if k != "schedule"} for _, h in hs])
+    rep.cov["states"] += st
+    rep.cov["transitions"] += st
+    rep.cov["handover_full_buffer_schedules"] = len(hs)
+    for (sc, h), a in zip(hs, acc):
+        rep.cov["traces_validated_against_impl"] += 1
+        rep.count_case(["handover_cap", len(sc["pre"]), h["schedule"]], len(set(h["schedule"])) > 1)
+        small = dict(sc, pre=[len(sc["pre"]), "ids from", sc["pre"][0]]) if len(sc["pre"]) > 20 else sc
+        if h["errors"]:
+            rep.violation("a call raised during the hand-over (full buffer / global fields): %s" % h["errors"][:2],
+                          {"engine": "conc", "module": "checks_conc_extra", "scenario": sc, "schedule": h["schedule"]})
+        elif a is None:
+            raise MachineryFailure("no verdict for a full-buffer hand-over history")
+        elif a[2] == "global_field_missing_send_in_flight" and any(
+                f["id"] == "F16" and f["status"] == "open" and f.get("clause") == a[2] for f in known_findings()):
+            rep.known_finding("F16", "a send() already past its merge of the global fields when another thread sets a new one delivers its "
+                                     "message afterwards without it")
+        elif a[2]:
+            rep.violation("hand-over with %d buffered messages and a racing logger: %s" % (len(sc["pre"]), a[2]),
+                          {"engine": "conc", "module": "checks_conc_extra", "scenario": sc, "schedule": h["schedule"],
+                           "offered_tail": [o[-6:] for o in h["offered"]]})
     # registrations changed by two threads at once (add in one, remove in the other), then messages are logged
     scs = [{"kind": "regrace", "initial": [1, 2], "add": [3], "remove": [1], "post": [1, 2], "max_pre": 2, "cap": 120 if quick else 3000,
             "random": 0, "seed": 1, "budget_s": 60},
